@@ -2,7 +2,7 @@
    "Every way the work can be split" = every binary split tree with admissible split points (Model/Producer.v);
    split_at / next / len of the two producers are the definitions GENERATED from src/utils.rs (Gen/Grid.v). *)
 From Coq Require Import List Arith Bool Lia Reals.
-From SpdVerif Require Import Base.GridOps Gen.Grid Model.Grid Model.Producer Proofs.C15_generic Proofs.C15_inst.
+From SpdVerif Require Import Base.GridOps Gen.Grid Model.Grid Model.Producer Proofs.C15_generic Proofs.C15_inst Model.C15_Float Proofs.C15_float.
 Import ListNotations.
 
 (* 1. 2-D grids: every split tree delivers the same points in the same positions — for EVERY carrier, hence bit-exactly *)
@@ -20,6 +20,21 @@ Proof. exact run1d_exact_real. Qed.
 Theorem C15_1d_count_exact : forall T (O : ops T) (s e : T) (n : nat) (t : tree), admissible 1 t n ->
   exists l, run (prod1d O) t (root1d s e n) = Ok l /\ length l = n.
 Proof. exact (@run1d_length). Qed.
+
+(* 2''. the float clause, PROVED under a stated guard: with every + - * / of the generated Steps::value and split_at rounded to
+   nearest (FLX-53 = binary64 absent overflow and underflow; Flocq round_FLT_FLX), any admissible split tree of depth D delivers,
+   at every position, a value within ((1+4u)^(D+1) - 1) max(|start|,|end|) of the exact sequential value (u = 2^-53, n-1 < 2^53).
+   Numerically <= 1e-14 for D <= 20 and <= 3e-14 for D <= 64 (rayon's bridge halves the length: D <= log2 n <= 64).
+   _partial: the guard "no intermediate result overflows or is subnormal" is assumed (by working in FLX), and the bound is
+   relative to the range scale max(|start|,|end|), not to each value. *)
+Theorem C15_1d_float_bound_partial : forall (s e : R) (n : nat) (t : tree), (INR (n - 1) < 9007199254740992)%R -> admissible 1 t n ->
+  exists l, run (prod1d FXops) t (root1d s e n) = Ok l /\ length l = n /\
+    forall i, i < n -> (Rabs (nth i l 0 - steps_value Rops s e n i) <= ((1 + 4 * u53) ^ S (depth t) - 1) * Mx s e)%R.
+Proof. exact (fun s e n t Hd => run1d_float_bound s e n Hd t). Qed.
+
+Theorem C15_1d_float_bound_numbers : forall k,
+  (k <= 20 -> ((1 + 4 * u53) ^ S k - 1 <= 1e-14)%R) /\ (k <= 64 -> ((1 + 4 * u53) ^ S k - 1 <= 3e-14)%R).
+Proof. exact depth_bound_numeric. Qed.
 
 (* 3. the ExactSizeIterator::len contract, for every producer reachable by splitting *)
 Theorem C15_len :
@@ -93,6 +108,8 @@ Proof. cbn. repeat split; lia. Qed.
 Print Assumptions C15_2d_exact.
 Print Assumptions C15_1d_exact_real.
 Print Assumptions C15_1d_count_exact.
+Print Assumptions C15_1d_float_bound_partial.
+Print Assumptions C15_1d_float_bound_numbers.
 Print Assumptions C15_len.
 Print Assumptions C15_par_len.
 Print Assumptions C15_enumerate.
